@@ -74,6 +74,10 @@ pub mod python;
 #[cfg(feature = "julia")]
 pub mod julia;
 
+#[cfg(feature = "verif")]
+#[allow(missing_docs)]
+pub mod verif;
+
 #[allow(unused_macros)]
 macro_rules! printbuildenv {
     ($tag:expr) => {
